@@ -763,6 +763,7 @@ pub fn run(sc: &C12Scenario) -> RunResult {
     let opts = SutOptions {
         with_scheduler: sc.needs_scheduler(),
         sample_rate: 48000,
+        self_init_0: false,
     };
     let path = sc
         .fixture
